@@ -87,7 +87,7 @@ class ModuleInfo:
     self.name = name
     self.path = path
     self.source = source
-    self.tree = ast.parse(source, filename=path)
+    self.tree = orient_comparisons(ast.parse(source, filename=path))
     self.imports = {}     # local name -> ('module', modname) | ('symbol', modname, sym)
     self.functions = {}   # top-level name -> FuncInfo
     self.classes = {}     # top-level name -> ClassInfo
@@ -398,6 +398,63 @@ class Program:
     if c['modules'] < modules or c['classes'] < classes or c['functions'] < functions:
       raise AnalysisError('facts floor not met: %r' % (c,))
     return c
+
+
+def _constant_like(n):
+  if isinstance(n, ast.Constant):
+    return True
+  if isinstance(n, ast.UnaryOp) and isinstance(n.op, (ast.USub, ast.UAdd)):
+    return _constant_like(n.operand)
+  if isinstance(n, (ast.Tuple, ast.List, ast.Set)):
+    return all(_constant_like(e) for e in n.elts)
+  return False
+
+
+_MIRROR = {ast.Gt: ast.Lt, ast.GtE: ast.LtE}
+
+
+def orient_comparisons(tree):
+  """Normalisation applied to every parsed module before any rule sees it: a
+  two-operand ordering comparison is written with < or <= (a > b becomes b < a),
+  an (in)equality with exactly one literal operand has the literal on the
+  right, and any other (in)equality has its operands in a fixed order (by shape
+  with local names blanked, then by text).  The rules are written against this orientation, so they cannot depend
+  on which way round the repository happens to spell a comparison.  Operands of
+  the comparisons the rules look at are side-effect free, so this is the same
+  test; positions (lineno) of the Compare node are kept."""
+  for c in ast.walk(tree):
+    if isinstance(c, ast.Compare) and len(c.ops) == 1:
+      op = type(c.ops[0])
+      if op in _MIRROR:
+        c.left, c.comparators[0] = c.comparators[0], c.left
+        c.ops[0] = _MIRROR[op]()
+      elif op in (ast.Eq, ast.NotEq):
+        l, r = c.left, c.comparators[0]
+        if _constant_like(l) != _constant_like(r):
+          swap = _constant_like(l)
+        else:
+          # neither (or both) literal: order by shape with local names blanked, then by text
+          swap = (_shape(l), ast.unparse(l)) > (_shape(r), ast.unparse(r))
+        if swap:
+          c.left, c.comparators[0] = r, l
+  return tree
+
+
+def _shape(n):
+  if isinstance(n, ast.Name):
+    return '_'
+  if isinstance(n, ast.Constant):
+    return repr(n.value)
+  if isinstance(n, ast.AST):
+    parts = [type(n).__name__]
+    for f, v in ast.iter_fields(n):
+      if f == 'ctx':
+        continue
+      parts.append(_shape(v))
+    return '(' + ' '.join(parts) + ')'
+  if isinstance(n, list):
+    return '[' + ' '.join(_shape(x) for x in n) + ']'
+  return repr(n)
 
 
 def norm_text(node):
